@@ -131,6 +131,7 @@ fn main() {
             x_all(&mut rep, Mode::C01, tier);
             pump_family(&mut rep, Mode::C01, tier);
             history::run(&mut rep, Mode::C01, tier);
+            history::concurrent(&mut rep);
             history::reentrancy(&mut rep);
             deep_family(&mut rep, Mode::C01, tier);
             option_presets(&mut rep);
@@ -162,6 +163,7 @@ fn main() {
             duplicate_key_family(&mut rep, Mode::C02, tier);
             pump_family(&mut rep, Mode::C02, tier);
             history::run(&mut rep, Mode::C02, tier);
+            history::concurrent(&mut rep);
             history::reentrancy(&mut rep);
             t_corpus(&mut rep, Mode::C02, Tier::Quick);
             rep.rule = "every accepted node of the trees and every member of the complete families (65 536 \\uXXXX in both hex cases, 1 048 576 surrogate pairs, 1 112 064 raw scalars, 128 backslash+ASCII) is parsed through parse_str, parse_slice and the observed iterator; the value, observed through the public accessors, must equal R-dec's abstract value; every key lookup on every object must equal a linear scan; non-trivial = distinct accepted inputs".into();
@@ -174,6 +176,7 @@ fn main() {
             duplicate_key_family(&mut rep, Mode::C05, tier);
             pump_family(&mut rep, Mode::C05, tier);
             history::run(&mut rep, Mode::C05, tier);
+            history::concurrent(&mut rep);
             history::reentrancy(&mut rep);
             whitespace_family(&mut rep, Mode::C05);
             t_corpus(&mut rep, Mode::C05, Tier::Quick);
